@@ -287,6 +287,44 @@ try:
         except Exception as e:  # noqa
             pr["err"] = type(e).__name__ + ": " + str(e)[:200]
         probes.append(pr)
+    # an internal general entity is presentation: the document loads like the one with the entity written out
+    try:
+        from neuroml.loaders import read_neuroml2_string
+        cell = '<izhikevichCell id="iz1" v0="-70mV" thresh="30mV" a="0.02" b="0.2" c="-50" d="2"/>'
+        body = '<neuroml xmlns="%s" id="ent"><notes>made by %s in 2020</notes><property tag="lab" value="%s"/>%s</neuroml>'
+        te = '<?xml version="1.0"?>\n<!DOCTYPE neuroml [<!ENTITY lab "Smith Lab"> ]>\n' + body % (NS, "&lab;", "&lab; (x)", cell)
+        tx = body % (NS, "Smith Lab", "Smith Lab (x)", cell)
+        fe, fx = os.path.join(d, "ent.nml"), os.path.join(d, "ent_expanded.nml")
+        open(fe, "w").write(te)
+        open(fx, "w").write(tx)
+        da, db, dc = load_dump(fe), load_dump(fx), gds_impl.dump(read_neuroml2_string(te))
+        probes.append({"name": "internal-general-entity", "fixed": da == db == dc,
+                       "diff": [json.dumps(x)[:300] for x in (da, db, dc)] if not (da == db == dc) else None})
+    except Exception as e:  # noqa
+        probes.append({"name": "internal-general-entity", "err": type(e).__name__ + ": " + str(e)[:200]})
+    # history: what is written for one loaded document does not depend on which document was loaded last
+    try:
+        from neuroml.loaders import read_neuroml2_string
+        cellp = '<n:izhikevichCell id="iz1" v0="-70mV" thresh="30mV" a="0.02" b="0.2" c="-50" d="2"/>'
+        tp = '<n:neuroml xmlns:n="%s" id="pdoc"><n:notes>prefixed</n:notes>%s</n:neuroml>' % (NS, cellp)
+        tu = '<neuroml xmlns="%s" id="udoc"><notes>plain</notes>%s</neuroml>' % (NS, cellp.replace("n:", ""))
+        dp = read_neuroml2_string(tp)
+        f1 = os.path.join(d, "hist_p1.nml")
+        NeuroMLWriter.write(dp, f1)
+        b1 = open(f1, "rb").read()
+        du = read_neuroml2_string(tu)
+        f2 = os.path.join(d, "hist_p2.nml")
+        NeuroMLWriter.write(dp, f2)
+        fu = os.path.join(d, "hist_u.nml")
+        NeuroMLWriter.write(du, fu)
+        ok = open(f2, "rb").read() == b1 and load_dump(f2) == gds_impl.dump(dp) and load_dump(fu) == gds_impl.dump(du)
+        du2 = read_neuroml2_string(tu)
+        dp2 = read_neuroml2_string(tp)
+        NeuroMLWriter.write(du2, fu)
+        ok = ok and load_dump(fu) == gds_impl.dump(du2) and b"n:" not in open(fu, "rb").read()
+        probes.append({"name": "write-after-another-document-was-loaded", "fixed": ok})
+    except Exception as e:  # noqa
+        probes.append({"name": "write-after-another-document-was-loaded", "err": type(e).__name__ + ": " + str(e)[:200]})
     # scale: a document larger than 10 MB with comments (inside text, between elements) loads like the same document without them
     try:
         half = "x" * 2650000
